@@ -433,6 +433,36 @@ fn run_case(tier: Tier, fam: &str, idx: u64, t: &mut Tally) {
         }
         return;
     }
+    if fam == "lz11huge" {
+        // LZ11 streams of 16 MiB and more use the 8-byte header (24-bit size 0, 32-bit size follows)
+        let mut toks = vec![Token::Lit(0x5A)];
+        for _ in 0..(255 + idx as usize) {
+            toks.push(Token::Ref { len: 65_808, disp: 1 });
+        }
+        let total: usize = 1 + (255 + idx as usize) * 65_808;
+        let stream = ref_lz::encode(&toks, Kind::Lz11, total, None);
+        t.cases += 1;
+        t.nontrivial += 1;
+        if stream[1] != 0 || stream[2] != 0 || stream[3] != 0 {
+            t.violate("machinery:generator", "the reference encoder did not use the extended header", json!({"family": fam, "index": idx}));
+            return;
+        }
+        for (e, bytes, what) in [(Entry::Lz13, stream.clone(), "bare LZ11 stream with the 8-byte header"), (Entry::Lz13Enum, wrap13(&stream), "wrapped LZ11 stream with the 8-byte header")] {
+            t.calls += 1;
+            match e.call(&bytes) {
+                Err(p) => t.violate(format!("panic@{}:huge", p.location), format!("{:?}.decompress panicked on a {}: {}", e, what, p.message), json!({"family": fam, "index": idx})),
+                Ok(Err(err)) => t.violate(format!("rejected-conforming:{:?}:huge", e), format!("{:?}.decompress rejects a {} expanding to {} bytes: {}", e, what, total, err), json!({"family": fam, "index": idx})),
+                Ok(Ok(out)) => {
+                    if out.len() != total || out.iter().any(|b| *b != 0x5A) {
+                        t.violate(format!("wrong-data:{:?}:huge", e), format!("{:?}.decompress of a {} returned {} bytes (expected {} × 0x5A)", e, what, out.len(), total), json!({"family": fam, "index": idx}));
+                    } else {
+                        t.class("conforming-ok");
+                    }
+                }
+            }
+        }
+        return;
+    }
     if fam == "hist" {
         let all = history_streams();
         let n = all.len() as u64;
@@ -469,6 +499,7 @@ fn families(tier: Tier) -> Vec<Family> {
     let mut f: Vec<Family> = specs(tier).iter().map(|s| Family::new(s.tag.clone(), spec_count(s))).collect();
     f.push(Family::new("arb", arb_count()));
     f.push(Family::new("stored", stored_cases().len() as u64));
+    f.push(Family::new("lz11huge", 2));
     let h = history_streams().len() as u64;
     f.push(Family::new("hist", h * h));
     f
